@@ -20,13 +20,15 @@ const (
 )
 
 type BindOpts struct {
-	NT, NV int
+	NT, NV     int
+	AnyDeposit bool // the existing binding may be available below the minimum deposit (parameters raised since)
 }
 
 // sceneBindingMsg: bind / update / enable / disable / refund-deposit through the handler, against
 // a state with the service defined (or not), the target binding present (or not), a second binding
 // of the same provider (so the provider has an owner), signed by the owner or by a stranger.
 func sceneBindingMsg(op int, o BindOpts) {
+	noMinAssumed = o.AnyDeposit
 	k, ctx := vf.Env()
 	ctx, _, now := Block(ctx)
 	defined := vf.Bool("defined")
@@ -70,7 +72,9 @@ func sceneBindingMsg(op int, o BindOpts) {
 		k.SetWithdrawAddress(ctx, owner, wa)
 	}
 	balS := vf.Amount("balSigner")
+	vf.SetBalance(prov, vf.Amount("balProv")) // the provider has money of its own, which no binding message may touch
 	vf.SetBalance(signer, balS)
+	balProv0 := vf.Balance(prov)
 	balOwner0 := vf.Balance(owner)
 	vf.SetModuleBalance(types.DepositAccName, depAcc)
 	supply0 := vf.Amount("supplyRest").Add(depAcc).Add(balS)
@@ -141,6 +145,8 @@ func sceneBindingMsg(op int, o BindOpts) {
 	if !rightful {
 		chk("C05", balOwner0.Equal(vf.Balance(owner)), "owner-not-debited-by-stranger")
 	}
+	// a binding message debits its signer only: the provider's own account is never touched
+	chk("C05 C03", vf.Or(prov.Equals(signer), vf.Balance(prov).GTE(balProv0)), "provider-account-not-debited")
 	if err != nil {
 		vf.Reach("rejected")
 		chk("C03 C05", vf.All(depAcc1.Equal(depAcc), balS1.Equal(balS)), "rejected-no-money-moves")
@@ -164,11 +170,25 @@ func sceneBindingMsg(op int, o BindOpts) {
 	stored := k.GetPricing(ctx, Svc, prov)
 	reparsed, rerr := k.ParsePricing(ctx, post.Pricing)
 	chk("C15 C07", vf.And(rerr == nil, stored.Price.AmountOf(Denom).Equal(reparsed.Price.AmountOf(Denom))), "stored-price-matches-published-text")
-	chk("C15", vf.And(len(stored.PromotionsByTime) == len(reparsed.PromotionsByTime), len(stored.PromotionsByVolume) == len(reparsed.PromotionsByVolume)), "stored-promotions-match-published-text")
+	samePromos := vf.And(len(stored.PromotionsByTime) == len(reparsed.PromotionsByTime), len(stored.PromotionsByVolume) == len(reparsed.PromotionsByVolume))
+	if len(stored.PromotionsByTime) == len(reparsed.PromotionsByTime) && len(stored.PromotionsByVolume) == len(reparsed.PromotionsByVolume) {
+		for i := range stored.PromotionsByTime {
+			a, c := stored.PromotionsByTime[i], reparsed.PromotionsByTime[i]
+			samePromos = vf.All(samePromos, a.StartTime.Equal(c.StartTime), a.EndTime.Equal(c.EndTime), a.Discount.Equal(c.Discount))
+		}
+		for i := range stored.PromotionsByVolume {
+			a, c := stored.PromotionsByVolume[i], reparsed.PromotionsByVolume[i]
+			samePromos = vf.All(samePromos, a.Volume == c.Volume, a.Discount.Equal(c.Discount))
+		}
+	}
+	chk("C15 C07", samePromos, "stored-promotions-match-published-text")
 	chk("C15", post.Validate() == nil, "stored-binding-is-valid")
 	// MIN
 	price := stored.Price.AmountOf(Denom)
-	chk("C14", vf.Implies(post.Available, newDep.GTE(MinDepositRef(k, ctx, price))), "available-holds-minimum-for-its-price")
+	// (a binding left below a minimum that the parameters raised afterwards is re-examined when its price or
+	// deposit changes or when it is enabled; an update of the response time alone re-examines nothing)
+	touched := op != opUpdBinding || hasDeposit || text != ""
+	chk("C14", vf.Implies(vf.And(post.Available, touched || !o.AnyDeposit), newDep.GTE(MinDepositRef(k, ctx, price))), "available-holds-minimum-for-its-price")
 	switch op {
 	case opBind:
 		chk("C15", vf.All(defined, !present), "bind-needs-definition-and-no-duplicate")
